@@ -135,6 +135,10 @@ pub fn bfs<S: System>(
             }
         }
         stats.depth_completed = depth + 1;
+        if ctx.saturated() {
+            stats.capped = true;
+            break;
+        }
         if stats.states > max_states {
             stats.capped = true;
             break;
